@@ -618,7 +618,14 @@ def run(prog, R):
                 continue
             sinks = forward_sinks(body, t.dest.local)
             tries = [tt for (k, tt, i, via) in sinks if k == 'call' and tt.callee and tt.callee.path == 'std::ops::Try::branch']
-            R.add('PAR-12', body, 'item-propagated', bool(tries), site(body, t.line), 'item of ParallelRecordsets::next flows into `?`: %s' % bool(tries))
+            # the item itself (the Result carried by Some) must be what `?` is applied to — not just a
+            # component taken out of its Ok payload (`while let Some(Ok(..))` would end the loop on an error)
+            whole = False
+            for tt in tries:
+                rs = roots_of(body, tt.args[0])
+                if any(r[0] == 'call' and r[1] is t and [q[2] for q in r[-1]] == ['Some'] for r in rs):
+                    whole = True
+            R.add('PAR-12', body, 'item-propagated', whole, site(body, t.line), 'the Result item of ParallelRecordsets::next is passed to `?` as a whole (an Err item cannot end the loop silently): %s' % whole)
             # worker results that are Results
             for tt in tries:
                 for (k2, t2, i2, via2) in forward_sinks(body, tt.dest.local):
